@@ -1,21 +1,30 @@
 #!/bin/bash
 # usage: tools/coqbuild.sh [make targets...]   (no targets = everything)
-# Regenerates coq/_CoqProject from the file tree, then runs a full .vo make
-# (never -vos) under a lock so concurrent checks do not race on .vo files.
+# Regenerates coq/_CoqProject from the file tree, then runs a full .vo make (never -vos).
+# Fast path: when the file list is unchanged and make says the targets are up to date, only a SHARED lock is
+# taken (concurrent checks do not wait for each other); otherwise an exclusive lock serialises the build.
 set -u
 cd "$(dirname "$0")/../coq" || exit 2
-exec 9>.buildlock
-flock 9
-{
+exec 9>>.buildlock
+gen() {
   echo "-Q . Verif"
   echo "-arg -w -arg -deprecated-hint-without-locality,-deprecated-instance-without-locality,-notation-overridden,-ambiguous-paths"
   find . -name '*.v' -not -path './Cases/*' | sed 's|^\./||' | LC_ALL=C sort
-} > _CoqProject.new
-if ! cmp -s _CoqProject.new _CoqProject 2>/dev/null; then
-  mv _CoqProject.new _CoqProject
+}
+flock -s 9
+new=_CoqProject.new.$$
+gen > $new
+if cmp -s $new _CoqProject 2>/dev/null && [ -f Makefile ] && [ -f .Makefile.d ] && make -q "$@" >/dev/null 2>&1; then
+  rm -f $new; exit 0
+fi
+flock -u 9
+flock 9
+gen > $new
+if ! cmp -s $new _CoqProject 2>/dev/null; then
+  mv $new _CoqProject
   coq_makefile -f _CoqProject -o Makefile >/dev/null || exit 2
 else
-  rm -f _CoqProject.new
+  rm -f $new
   [ -f Makefile ] || coq_makefile -f _CoqProject -o Makefile >/dev/null || exit 2
 fi
 timeout "${VERIF_COQ_TIMEOUT:-1500}" make -j"${VERIF_JOBS:-16}" "$@"
